@@ -9,6 +9,8 @@ props = [json.loads(l) for l in open(os.path.join(ROOT, "properties.jsonl"))]
 GRAPH = "DepGraph.tla (reference digraph) model-checked by TLC; every transition of its state graph and all digraphs <=4 nodes replayed on the real graph component; every query compared by the trace specification DepGraphTrace"
 CONT = "Container.tla (state, Apply, property-tagged guards) with the reference semantics of ContainerMC model-checked by TLC (all guards + state invariants over all histories within the bounds); every transition of the history model and every configuration of the factored configuration space (ContainerSweep) executed on the real container; every recorded event validated by TLC against ContainerTrace with Check={this property}"
 
+REG = "Registry.tla (live descriptor sequence, snapshots, items incl. colliding multi-output and invalid Add calls) model-checked by TLC (atomic add, one registration per identity, stable snapshots, module transparency); every transition of RegistryMC replayed on a real collection: full query vector after every call, constructors run and resolvability matrix after every Build, earlier providers re-probed after every later edit; validated by TLC against RegistryTrace"
+
 CHECKS = {
     "C01": (CONT, "3.3, 6 (C01)"), "C02": (CONT, "3.3, 6 (C02)"), "C03": (CONT, "3.3, 6 (C03)"),
     "C04": (CONT + "; function-value kinds (closure, method value, generic instantiation, reflect.MakeFunc) as an extra configuration family", "3.3, 6 (C04)"),
@@ -18,8 +20,10 @@ CHECKS = {
     "C10": (CONT + "; fault position enumerated over constructor invocations of Build / CreateScope / Resolve, close-error subsets", "3.3, 6 (C10)"),
     "C11": (CONT, "3.3, 6 (C11)"), "C12": (CONT + "; all listed subsets of failing Close methods, repeated closes, cancellation", "3.3, 6 (C12)"),
     "C13": (CONT, "3.3, 6 (C13)"), "C15": (CONT + "; fault kind error / panic / typed nil at every listed position", "3.3, 6 (C15)"),
-    "C18": (CONT + "; built-ins positional and as parameter-object fields in all three lifetimes over root/child/grandchild/sibling scopes", "3.3, 6 (C18)"),
+    "C18": (CONT + "; built-ins positional and as parameter-object fields in all three lifetimes over root/child/grandchild/sibling scopes; reserved types in every output position rejected (RegistryMC items c1-c5)", "3.2, 3.3, 6 (C18)"),
     "C19": (GRAPH, "3.1, 6 (C19)"),
+    "C17": (REG, "3.2, 6 (C17)"),
+    "C20": (REG + "; module trees (leaves + module-name chains) applied through AddModules and, as direct calls, to a twin collection", "3.2, 6 (C20)"),
 }
 NOTE = "bounded exploration (constants in the evidence file: design_runs); the Go harness, its recorder and TLC are trusted; sequential histories only unless stated"
 
